@@ -13,7 +13,7 @@ import z3
 from harness.common import *
 
 
-def chain_src(d, vals=None, void=False, pad=0, ptr=False, nested=False):
+def chain_src(d, vals=None, void=False, pad=0, ptr=False, nested=False, pure=False):
     """helpers h1..hd (value-returning, or void when `void`); h_i = slot A (callee: marker | h_{i-1}) + slot B (marker | h_{i-2} | leaf);
     `pad` unrelated helpers are declared first, so the chain sits at function-arena indices >= pad (hundreds of functions);
     with `ptr` every function takes a `ptr<function, f32>` parameter that is threaded through all calls"""
@@ -22,7 +22,7 @@ def chain_src(d, vals=None, void=False, pad=0, ptr=False, nested=False):
     out = ['@group(0) @binding(0) var<storage, read_write> u: array<u32, 4>;'] if void else ['@group(0) @binding(0) var<uniform> u: vec4<f32>;']
     for k in range(pad):
         out.append(f'fn pad{k}() {{}}' if void else f'fn pad{k}() -> u32 {{ return {k}u; }}')
-    out.append(f'fn leaf({P}) {{ u[0] = 1u; }}' if void else f'fn leaf({P}) -> u32 {{ return u32(u.x); }}')
+    out.append(f'fn leaf({P}) {{ u[0] = 1u; }}' if void else (f'fn leaf({P}) -> u32 {{ return 1u; }}' if pure else f'fn leaf({P}) -> u32 {{ return u32(u.x); }}'))
     for i in range(1, d + 1):
         out.append(f'fn ma{i}({P}) {{}}' if void else f'fn ma{i}({P}) -> u32 {{ return 0u; }}')
         out.append(f'fn mb{i}({P}) {{}}' if void else f'fn mb{i}({P}) -> u32 {{ return 0u; }}')
@@ -35,7 +35,7 @@ def chain_src(d, vals=None, void=False, pad=0, ptr=False, nested=False):
         else:
             out.append(f'fn h{i}({P}) {{ {a}({A}); {b}({A}); }}' if void else f'fn h{i}({P}) -> u32 {{ let x = {a}({A}); let y = {b}({A}); return x + y; }}')
     top = (vals or {}).get('top', f'h{d}')
-    decl = 'var acc0: f32 = 0.0; ' if ptr else ''
+    decl = ('var acc0: f32 = 0.0; ' if ptr else '') + ('let touch = u.x; ' if pure and not void else '')        # pure helpers: only the entry touches the binding
     arg = '&acc0' if ptr else ''
     out.append(f'@compute @workgroup_size(1) fn main() {{ {decl}{top}({arg}); }}' if void else f'@compute @workgroup_size(1) fn main() {{ {decl}let r = {top}({arg}); }}')
     # a second entry point of another stage shares the whole chain (work must not multiply across entry points either)
@@ -136,15 +136,16 @@ def run(ctx):
     d = 7 if quick else 9
     ctx.bounds = {'call chain depth': d, 'parameter type of the helpers (value family)': 'f32 or ptr<function, f32> (symbolic)', 'unrelated functions declared before the chain': '0 and 70' if quick else '0, 70 and 300', 'struct nesting depth': d, 'ladder': 'f_i -> l_i, r_i -> f_(i-1): diamonds through distinct intermediate functions, 3 levels symbolic', 'shapes': 'per level: call of the previous level present/absent; on two (thorough: three) levels also a '
                   'call of level i-2 or of a shared leaf; per struct level each of two members is scalar / previous struct / array of it (symbolic on 3 levels, both = struct elsewhere)'}
-    ctx.assumptions += ['cost measure = interpreted invocations of the recursive walkers (deterministic; the native replay at depth 24 shows the wall-clock effect)',
+    ctx.assumptions += ['cost measure = interpreted invocations of the recursive walkers, and (call-graph families) the total number of interpreted calls of crate functions on the path, capped at 6 x the linear budget (deterministic; the native replay shows the wall-clock effect)',
                         'budget: call graph walk <= entries * (functions + call sites + 1); type walk <= variables * (types + member edges + 1): linear in the size of the shader']
     seen = {}
     # ------------------------------------------------------------------ (a) call graphs
-    families = [(False, 0, False), (True, 0, False), (False, 70, False), (False, 0, True)] + ([] if quick else [(True, 70, False), (False, 300, False)])
-    for void, pad, nested in families:
-        key_cg = 'C20/call-graph-' + ('void' if void else 'value') + (f'-after-{pad}-functions' if pad else '') + ('-calls-inside-control-flow' if nested else '')
-        sym_params = (not void and pad == 0 and not nested)        # in this family the TYPE of the helpers' parameter is symbolic: f32 or ptr<function, f32>
-        src = chain_src(d, void=void, pad=pad, ptr=sym_params, nested=nested)
+    families = [(False, 0, False, False), (True, 0, False, False), (False, 70, False, False), (False, 0, True, False), (False, 0, False, True)] \
+        + ([] if quick else [(True, 70, False, False), (False, 300, False, False)])
+    for void, pad, nested, pure in families:
+        key_cg = 'C20/call-graph-' + ('void' if void else 'value') + (f'-after-{pad}-functions' if pad else '') + ('-calls-inside-control-flow' if nested else '') + ('-pure-helpers' if pure else '')
+        sym_params = (not void and pad == 0 and not nested and not pure)        # in this family the TYPE of the helpers' parameter is symbolic: f32 or ptr<function, f32>
+        src = chain_src(d, void=void, pad=pad, ptr=sym_params, nested=nested, pure=pure)
         dmp = S.dump(src)
         mj = dmp['module']
         fh = {f['name']: i for i, f in enumerate(mj['functions'])}
@@ -176,8 +177,8 @@ def run(ctx):
                 assume.append(tb == fh['leaf'])
         n_funcs, n_sites = len(mj['functions']) - pad, 2 * d + 2          # the unrelated helpers are never reached from an entry point
         budget = 2 * (n_funcs + n_sites + 1)
-        res = ctx.explore(f'global_shader_stages/{"void" if void else "value"}-chain-depth-{d}' + (f'-after-{pad}-functions' if pad else '') + ('-nested' if nested else ''), lambda it: it.call('global_shader_stages', [mkref(module)]), assume=assume,
-                          env={'call_caps': {'update_stages': budget + 1}}, anchors=['global_shader_stages', 'update_stages', 'update_stages_blocks'], timeout_s=3000, max_paths=20000)
+        res = ctx.explore(f'global_shader_stages/{"void" if void else "value"}-chain-depth-{d}' + (f'-after-{pad}-functions' if pad else '') + ('-nested' if nested else '') + ('-pure' if pure else ''), lambda it: it.call('global_shader_stages', [mkref(module)]), assume=assume,
+                          env={'call_caps': {'update_stages': budget + 1, '*': 6 * budget}}, anchors=['global_shader_stages', 'update_stages', 'update_stages_blocks'], timeout_s=3000, max_paths=20000)
         worst = (0, None)
         for pc, kind, out, calls in res:
             n = calls.get('update_stages', 0)
@@ -198,10 +199,10 @@ def run(ctx):
             m = ctx.witness(pc)
             inv = {v: k for k, v in fh.items()}
             shape = {k: inv[model_value(m, t)] for k, t in terms.items()}
-            rep, det = replay_chain(ctx, shape, d, void, pad, bool(sym_params and model_value(m, ptr_flag)), nested)
+            rep, det = replay_chain(ctx, shape, d, void, pad, bool(sym_params and model_value(m, ptr_flag)), nested, pure)
             ctx.report(key_cg, f'update_stages entered {">= " if kind == "cost" else ""}{n} times on a {n_funcs}-function / {n_sites}-call-site shader (linear budget {budget}); shape {shape}',
                        det, rep, det)
-        ctx.extra['call_graph_' + ('void' if void else 'value') + (f'_pad{pad}' if pad else '') + ('_nested' if nested else '')] = {'paths': len(res), 'worst_update_stages_invocations': worst[0], 'budget': budget, 'functions': n_funcs, 'call_sites': n_sites}
+        ctx.extra['call_graph_' + ('void' if void else 'value') + (f'_pad{pad}' if pad else '') + ('_nested' if nested else '') + ('_pure' if pure else '')] = {'paths': len(res), 'worst_update_stages_invocations': worst[0], 'budget': budget, 'functions': n_funcs, 'call_sites': n_sites}
         ctx.sample({'harness': 'chain', 'depth': d, 'worst invocations': worst[0], 'budget': budget})
         ctx.vacuity_witness('cost assertion reachable', res[0][0])
     ladder_family(ctx, seen, 6 if quick else 8)
@@ -292,16 +293,16 @@ def timed_gen(ctx, src, opts, limit=20):
     return time.time() - t0, okv
 
 
-def replay_chain(ctx, shape, d, void=False, pad=0, ptr=False, nested=False):
+def replay_chain(ctx, shape, d, void=False, pad=0, ptr=False, nested=False, pure=False):
     """the witness shape generalised to depth 24 (every level calls the previous one from both call sites)"""
-    D = 24
+    D = 30 if pure else 24
     vals = {}
     for i in range(1, D + 1):
         vals[f'a{i}'] = f'h{i - 1}' if i > 1 else 'leaf'
         vals[f'b{i}'] = f'h{i - 1}' if i > 1 else 'leaf'
-    src = chain_src(D, vals, void, pad, ptr, nested)
+    src = chain_src(D, vals, void, pad, ptr, nested, pure)
     secs, okv = timed_gen(ctx, src, {})
-    base, _ = timed_gen(ctx, chain_src(D, None, void, pad, ptr, nested), {})
+    base, _ = timed_gen(ctx, chain_src(D, None, void, pad, ptr, nested, pure), {})
     det = {'wgsl': src, 'depth': D, 'lines': src.count('\n'), 'seconds': round(secs, 3), 'same_size_shader_without_calls_seconds': round(base, 3), 'generated': okv}
     return secs > max(1.0, 20 * base), det
 
